@@ -6,6 +6,7 @@ import Driver.C19
 import Driver.C06
 import Driver.C12
 import Driver.C13
+import Driver.C07
 
 open Driver
 
@@ -39,6 +40,9 @@ def main (args : List String) : IO UInt32 := do
     return 0
   | ["c12"] =>
     forLines stdin fun l => stdout.putStrLn (c12Line (fields l))
+    return 0
+  | ["c07"] =>
+    forLines stdin fun l => stdout.putStrLn (c07Line (fields l))
     return 0
   | ["c13"] =>
     forLines stdin fun l => stdout.putStrLn (c13Line (fields l))
